@@ -135,6 +135,7 @@ type env struct {
 	values map[types.SiacoinOutputID]types.Currency
 	txns   map[int]*ftxn
 	uniq   int
+	gate   *gate // lets a script hold one pool insertion of the wallet (see gated.go)
 	lagging int // empty blocks the manager has and the wallet's store has not processed yet
 	nextH  int
 
@@ -178,7 +179,7 @@ func newEnv(seed []byte, cfg config, delay uint64) *env {
 }
 
 func (e *env) openWallet() {
-	w, err := wallet.NewSingleAddressWallet(e.pk, e.cm, e.ws, &testutil.MockSyncer{},
+	w, err := wallet.NewSingleAddressWallet(e.pk, &gatedCM{Manager: e.cm, g: e.gate}, e.ws, &testutil.MockSyncer{},
 		wallet.WithDefragThreshold(e.cfg.thr), wallet.WithMaxInputsForDefrag(e.cfg.maxIn), wallet.WithMaxDefragUTXOs(e.cfg.maxDefrag),
 		wallet.WithReservationDuration(e.cfg.realDur()), wallet.WithDebounceInterval(24*time.Hour))
 	must(err)
